@@ -39,6 +39,7 @@ func init() {
 	families["pg"] = famPG
 	families["ctx"] = famCtx
 	families["dt"] = famDT
+	families["kv"] = famKV
 }
 
 func mustDoc(text string, useNumber bool) any {
@@ -240,6 +241,20 @@ func famCmp(g *gen, e *emitter, n int) {
 					}
 				}
 				cnt++
+			}
+		}
+	}
+	// datetime items under WithTZ in fixed-offset context zones: the same order axioms across the five types
+	dts := []string{"2024-01-02", "2024-01-01", "12:34:56", "12:34:56.5", "12:34:56+01", "11:34:56.5-08:00", "17:04:56+05:30", "2024-01-02T00:00:00", "2024-01-01T18:30:00",
+		"2024-01-02T03:04:05", "2024-01-02T00:00:00+05:30", "2024-01-01T18:30:00Z", "2024-01-02T03:04:05-08:00", "2024-01-02T08:00:00Z", "nope"}
+	for _, tz := range []int{19800, -28800} {
+		for _, mode := range []string{"", "strict "} {
+			for _, a := range dts {
+				for _, b := range dts {
+					for _, op := range ops {
+						e.emit(caseSpec{family: "cmp", text: mode + "$x.datetime() " + op + " $y.datetime()", vars: map[string]any{"x": a, "y": b}, useTZ: true, tzOff: tz})
+					}
+				}
 			}
 		}
 	}
@@ -1038,5 +1053,133 @@ func famDT(g *gen, e *emitter, n int) {
 				}
 			}
 		}
+	}
+}
+
+
+// ---- C16: .keyvalue() ids do not depend on the route by which a document object is reached ----
+// "$[*] ? (C).keyvalue()" where C itself uses .keyvalue() (and may fail under it) must give every
+// member of a top-level object the id that "$[i].keyvalue()" gives it on the same document in memory:
+// id = base id * 10^10 + offset from the base object, and the base object of a document object is $.
+func kvRouteProbe(p *path.Path, cs caseSpec) [][3]string {
+	arr, ok := cs.doc.([]any)
+	if !ok {
+		return nil
+	}
+	ctx := context.Background()
+	type ent struct {
+		key string
+		val any
+		id  int64
+	}
+	var direct []ent
+	for i := range arr {
+		if _, isObj := arr[i].(map[string]any); !isObj {
+			continue
+		}
+		dp, err := path.Parse(fmt.Sprintf("$[%d].keyvalue()", i))
+		if err != nil {
+			return nil
+		}
+		res, err := dp.Query(ctx, cs.doc)
+		if err != nil {
+			return nil
+		}
+		for _, it := range res {
+			if m, ok := it.(map[string]any); ok {
+				if id, ok := m["id"].(int64); ok {
+					k, _ := m["key"].(string)
+					direct = append(direct, ent{k, m["value"], id})
+				}
+			}
+		}
+	}
+	var out [][3]string
+	for _, silent := range []bool{false, true} {
+		var opts []exec.Option
+		if silent {
+			opts = append(opts, exec.WithSilent())
+		}
+		res, err := p.Query(ctx, cs.doc, opts...)
+		if err != nil {
+			continue
+		}
+		for n, it := range res {
+			m, ok := it.(map[string]any)
+			if !ok {
+				continue
+			}
+			id, ok := m["id"].(int64)
+			if !ok {
+				continue
+			}
+			k, _ := m["key"].(string)
+			found, match := false, false
+			var want int64
+			for _, d := range direct {
+				if d.key == k && reflect.DeepEqual(d.val, m["value"]) {
+					found = true
+					want = d.id
+					if d.id == id {
+						match = true
+					}
+				}
+			}
+			if found && !match {
+				out = append(out, [3]string{"C16", "keyvalue-id-depends-on-route",
+					fmt.Sprintf("item %d (key %q): id %d through the path, %d through direct access to the same object (silent=%v)", n, k, id, want, silent)})
+				return out
+			}
+		}
+	}
+	return out
+}
+
+func famKV(g *gen, e *emitter, n int) {
+	vals := []string{`"7"`, `"oops"`, `8`, `-1`, `1.5`, `"1e400"`, `true`, `"t"`, `null`, `{"a":1}`, `[1,2]`, `"12"`, `0`}
+	keys := []string{"n", "m", "tag", "k", "a"}
+	conds := []string{
+		`@.keyvalue().value.integer() > 0`, `@.keyvalue().value.double() >= 0`, `@.keyvalue().value.bigint() < 100`,
+		`@.keyvalue().value.boolean() == true`, `exists(@.keyvalue().value ? (@.integer() > 5))`, `@.keyvalue().value.a == 1`,
+		`@.keyvalue().key starts with "n"`, `@.keyvalue().value.number() < 10 || @.keyvalue().value.boolean() == true`,
+		`(@.keyvalue().value.integer() > 0) is unknown`, `@.keyvalue().value.size() > 1`, `@.keyvalue().value[1] == 2`,
+		`!(@.keyvalue().value.decimal(2,0) > 5)`, `@.keyvalue().value.keyvalue().key == "a"`, `@.keyvalue().value.datetime() < "2024-01-01".datetime()`,
+	}
+	if n <= 0 {
+		n = 20000
+	}
+	for i := 0; i < n; i++ {
+		var objs []string
+		for j, no := 0, 2+g.r.Intn(4); j < no; j++ {
+			var ms []string
+			seen := map[string]bool{}
+			for m, nm := 0, 1+g.r.Intn(3); m < nm; m++ {
+				k := keys[g.r.Intn(len(keys))]
+				if seen[k] {
+					continue
+				}
+				seen[k] = true
+				ms = append(ms, fmt.Sprintf("%q:%s", k, vals[g.r.Intn(len(vals))]))
+			}
+			objs = append(objs, "{"+strings.Join(ms, ",")+"}")
+		}
+		if g.chance(0.2) {
+			objs = append(objs, vals[g.r.Intn(len(vals))])
+		}
+		doc := mustDoc("["+strings.Join(objs, ",")+"]", g.chance(0.3))
+		mode := ""
+		if g.chance(0.4) {
+			mode = "strict "
+		}
+		var text string
+		switch g.r.Intn(6) {
+		case 0:
+			text = mode + "$[*].keyvalue()"
+		case 1:
+			text = mode + "$[*] ? (" + conds[g.r.Intn(len(conds))] + " && " + conds[g.r.Intn(len(conds))] + ").keyvalue()"
+		default:
+			text = mode + "$[*] ? (" + conds[g.r.Intn(len(conds))] + ").keyvalue()"
+		}
+		e.emit(caseSpec{family: "kv", text: text, doc: doc, probe: kvRouteProbe})
 	}
 }
